@@ -190,3 +190,23 @@ Theorem C14_upd_pickups_hypotheses :
 Proof. exact upd_pickups_hypotheses. Qed.
 Print Assumptions C14_upd_pickups_hypotheses.
 
+
+Theorem C14_update_optics_each_owner_once :
+  forall (owners : list Z) (o : Z),
+       (In o owners -> count_occ Z.eq_dec (dedup owners) o = 1%nat) /\
+       (~ In o owners -> count_occ Z.eq_dec (dedup owners) o = 0%nat).
+Proof. exact update_optics_each_owner_once. Qed.
+Print Assumptions C14_update_optics_each_owner_once.
+
+Theorem C14_update_optics_satisfies_every_owner :
+  forall (u : Z -> store -> store) (own : Z -> coord -> bool),
+       (forall (o : Z) (s : store) (c : coord), own o c = false -> u o s c = s c) ->
+       (forall (o : Z) (s s' : store),
+        (forall c : coord, own o c = true -> s c = s' c) ->
+        forall c : coord, own o c = true -> u o s c = u o s' c) ->
+       (forall (o : Z) (s : store), u o (u o s) = u o s) ->
+       (forall (o o' : Z) (c : coord), o <> o' -> own o c = true -> own o' c = false) ->
+       forall (owners : list Z) (o : Z) (s : store),
+       In o owners -> u o (update_optics u owners s) = update_optics u owners s.
+Proof. exact update_optics_satisfies_every_owner. Qed.
+Print Assumptions C14_update_optics_satisfies_every_owner.
